@@ -29,6 +29,8 @@ use verif_rt::{Kind, Report, MAX_TASKS, N_SLOTS};
 const ENGINE_TAG: u64 = 0xB;
 const MAX_STEPS: usize = 20_000_000;
 const STACK_SIZE: usize = 1 << 20;
+/// longest run of consecutive steps a task may get while others are runnable
+const FAIR_RUN: usize = 96;
 
 // ------------------------------------------------------------------------------------------
 // Scheduler
@@ -88,6 +90,9 @@ struct Engine {
     change_points: Vec<usize>,
     late_released_step: Option<usize>,
     late_forced: bool,
+    last_chosen: Option<usize>,
+    consecutive: usize,
+    must_yield: bool,
     // outcomes observed by the racing threads: [thread][op] = (outcome, event index at return)
     observed: Vec<Vec<Option<(Outcome, usize)>>>,
     // --- per scenario
@@ -117,6 +122,9 @@ impl Engine {
             change_points: Vec::new(),
             late_released_step: None,
             late_forced: false,
+            last_chosen: None,
+            consecutive: 0,
+            must_yield: false,
             observed: Vec::new(),
             reference: Vec::new(),
             ref_constructed: [[0; N_SLOTS]; 2],
@@ -165,13 +173,23 @@ impl Scheduler for SimScheduler {
         Some(Schedule::new(0))
     }
 
-    fn next_task(&mut self, runnable: &[&Task], current: Option<TaskId>, _is_yielding: bool) -> Option<TaskId> {
+    fn next_task(&mut self, runnable: &[&Task], current: Option<TaskId>, is_yielding: bool) -> Option<TaskId> {
         ENGINE.with(|e| {
             let mut e = e.borrow_mut();
             let e = &mut *e;
             let ids: Vec<usize> = runnable.iter().map(|t| usize::from(t.id())).collect();
             let cur = current.map(usize::from);
+            // Fairness (the step bound is a liveness oracle, and liveness claims are only valid
+            // under fair schedules): a task that yields (yield_now / spin_loop / a spin-wait) or
+            // that has been running for FAIR_RUN consecutive steps lets somebody else run.
+            if cur.is_some() && cur == e.last_chosen {
+                e.consecutive += 1;
+            } else {
+                e.consecutive = 0;
+            }
+            e.must_yield = is_yielding || e.consecutive >= FAIR_RUN;
             let chosen = pick(e, &ids, cur);
+            e.last_chosen = Some(chosen);
             e.schedule.push(chosen as u8);
             e.steps += 1;
             Some(TaskId::from(chosen))
@@ -234,6 +252,20 @@ fn pick(e: &mut Engine, ids: &[usize], cur: Option<usize>) -> usize {
                     st.fired = true;
                 }
                 st.remaining -= 1;
+            }
+        }
+    }
+    // fairness: the current task steps aside if anybody else is eligible
+    if e.must_yield {
+        if let Some(c) = cur {
+            if eligible.len() > 1 && eligible.contains(&c) {
+                eligible.retain(|x| *x != c);
+                if let Policy::Pct { .. } = e.policy {
+                    if c < MAX_TASKS {
+                        e.low_prio = e.low_prio.saturating_sub(1);
+                        e.prio[c] = e.low_prio;
+                    }
+                }
             }
         }
     }
@@ -352,6 +384,9 @@ fn setup_execution(sc: &Scenario, policy: Policy, sched_seed: u64, est_len: usiz
         e.thread_done = [false; MAX_TASKS];
         e.late_released_step = None;
         e.late_forced = false;
+        e.last_chosen = None;
+        e.consecutive = 0;
+        e.must_yield = false;
         e.observed = sc.threads.iter().map(|t| vec![None; t.ops.len()]).collect();
         e.last = None;
         // PCT-style priorities and change points
